@@ -71,7 +71,10 @@ func oblTags(c *Contract, kind string, tags []string) []string {
 		return tags
 	}
 	if kind == "pre" || kind == "frame" || kind == "decreases" {
-		return c.Tags
+		if len(c.Tags) > 0 {
+			return c.Tags
+		}
+		return c.allClauseTags()
 	}
 	return tags
 }
@@ -92,7 +95,7 @@ func contractServes(c *Contract, prop string) bool {
 		return true
 	}
 	for _, ls := range c.Loops {
-		if chk(ls.Invariants) || chk(ls.AtEnd) || hasTag(ls.Complete, prop) {
+		if chk(ls.Invariants) || chk(ls.AtEnd) || chk(ls.AtEntry) || hasTag(ls.Complete, prop) {
 			return true
 		}
 	}
